@@ -493,4 +493,12 @@ theorem fixed_map_size :
     ∧ verdict (flat "K" ["m"] [("m", .mapAny { max := some 1 }), ("b", .boolean)])
       (.inst "K" [("m", .dict [(.str "p", .int 1)])]) = true := by decide
 
+/-- finding `exact:enum-null` (since fix 512799b an Enum with a None value is exported, with `null` among the
+    enum members): the schema admits `{"d": null}` for a required `d`; the runtime treats a null as an
+    absent key and rejects the document -/
+theorem counterexample_exact_enum_null :
+    raises (flat "K" ["d"] [("d", .enumLit [.int 1, .none]), ("b", .boolean)]) = false
+    ∧ admittedButRejected (flat "K" ["d"] [("d", .enumLit [.int 1, .none]), ("b", .boolean)])
+      (.dict [(.str "d", .none)]) = true := by decide
+
 end Typedpy.C08
